@@ -577,16 +577,19 @@ func listsInLockstep(fi *FuncInfo, a, b string) bool {
 
 // checkColumnNaming: column positions are filled from the Go field name, never from the JSON name.
 func checkColumnNaming(w *World, r *Result) {
-	sc := w.MustFunc("generator/go/sqlcrud.sqlColumnName")
-	okSC := false
-	ast.Inspect(sc.Decl.Body, func(x ast.Node) bool {
-		if ret, ok := x.(*ast.ReturnStmt); ok && len(ret.Results) == 1 {
-			s := es(ret.Results[0])
-			okSC = strings.Contains(s, ".Field.Name()") && !strings.Contains(s, "JSONName")
-		}
-		return true
-	})
-	r.cond(okSC, "AGR-C05d", sc.Name, "CRUD column name = lower-cased Go field name", fnPos(w, sc), "strings.ToLower(fi.Field.Name()): equal to the DDL's column (the Go field name) under SQL identifier folding", "the CRUD column name is not derived from the Go field name")
+	// the naming helper, when the package has one (it may be inlined at its call sites: the package-wide rule below,
+	// no JSON name anywhere in the CRUD generator, is what carries the property then)
+	if sc := w.Func("generator/go/sqlcrud.sqlColumnName"); sc != nil {
+		okSC := false
+		ast.Inspect(sc.Decl.Body, func(x ast.Node) bool {
+			if ret, ok := x.(*ast.ReturnStmt); ok && len(ret.Results) == 1 {
+				s := es(ret.Results[0])
+				okSC = strings.Contains(s, ".Field.Name()") && !strings.Contains(s, "JSONName")
+			}
+			return true
+		})
+		r.cond(okSC, "AGR-C05d", sc.Name, "CRUD column name = lower-cased Go field name", fnPos(w, sc), "strings.ToLower(fi.Field.Name()): equal to the DDL's column (the Go field name) under SQL identifier folding", "the CRUD column name is not derived from the Go field name")
+	}
 	bad := 0
 	for _, fi := range sortedFuncs(w) {
 		rel := w.Rel(fi.Obj.Pkg())
